@@ -152,7 +152,7 @@ def adopt(dirs):
             print('REJECTED', d, {k: c.get(k) for k in ('applies', 'demo_differs', 'tests_pass', 'touches_tests', 'error')})
             continue
         meta = json.load(open(os.path.join(d, 'meta.json')))
-        dest = os.path.join(VERIF, 'seeded', meta['property'], ('r2-' if '/rt2/' in d else 'r3-' if '/rt3/' in d else '') + os.path.basename(d))
+        dest = os.path.join(VERIF, 'seeded', meta['property'], ('r2-' if '/rt2/' in d else 'r3-' if '/rt3/' in d else 'r4-' if '/rt4/' in d else '') + os.path.basename(d))
         if os.path.exists(os.path.join(dest, 'meta.json')) and 'rebased' in json.load(open(os.path.join(dest, 'meta.json'))):
             print('skip (adopted copy was rebased by hand):', dest)
             continue
@@ -212,3 +212,21 @@ if __name__ == '__main__':
         print(json.dumps(r, indent=1))
     elif cmd == 'table':
         table()
+    elif cmd == 'design':
+        # rewrite the table at the end of DESIGN.md section 9
+        import io, contextlib
+        buf = io.StringIO()
+        with contextlib.redirect_stdout(buf):
+            table()
+        rows = buf.getvalue().strip().splitlines()
+        dp = os.path.join(VERIF, 'DESIGN.md')
+        text = open(dp).read()
+        start = text.index('<!-- seeded-table -->') if '<!-- seeded-table -->' in text else text.index('(filled in below as the runs complete)')
+        head = '<!-- seeded-table -->\n\n| change | what it does | inputs affected | caught by (quick tier) |\n|---|---|---|---|\n'
+        n_all = len(rows)
+        n_miss = sum(1 for r in rows if r.rstrip().endswith('| MISSED |'))
+        n_weak = sum(1 for r in rows if '*' in r.rsplit('|', 2)[-2])
+        tail = ('\n\n%d changes, %d caught by a check of the property they break or of a neighbouring property (%d of them only as `no-failing-input-found`, '
+                'marked `*`), %d missed.\n' % (n_all, n_all - n_miss, n_weak, n_miss))
+        open(dp, 'w').write(text[:start] + head + '\n'.join(rows) + tail)
+        print('DESIGN.md table: %d rows, %d missed' % (n_all, n_miss))
